@@ -177,3 +177,6 @@ Definition dec_map (a : Z -> bool) (off m : Z) : Z -> Z :=
 (* the assignment that writes phi i - 1 in binary on the b variables of element i *)
 Definition enc_bits (b : Z) (phi : Z -> Z) : Z -> bool :=
   fun v => Z.testbit (phi ((v - 1) / b + 1) - 1) (((v - 1) / b + 1) * b - v).
+(* the assignment that writes a relation on the variables of a unary mapping *)
+Definition enc_rel (off m : Z) (R : Z -> Z -> bool) : Z -> bool :=
+  fun v => R ((v - off - 1) / m + 1) ((v - off - 1) mod m + 1).
